@@ -1,2 +1,3 @@
+@property
 def spec(self):
     return ((k, v.synapse) for k, v in self.connections_.items())
